@@ -455,6 +455,8 @@ def held_error_sources(ix, model):
     if not elems:
         raise AnalysisError('Errors: no function constructs an exception and passes it to report_error()')
 
+    known_ctx = set()
+
     def yields_held(m, fn, known):
         if not any((isinstance(d, ast.Name) and d.id == 'contextmanager') or (isinstance(d, ast.Attribute) and d.attr == 'contextmanager') for d in fn.decorator_list):
             return False
@@ -465,6 +467,14 @@ def held_error_sources(ix, model):
                 if r and r[0] == 'func' and (r[1].short, r[2].name) in known:
                     held |= {t.id for t in n.targets if isinstance(t, ast.Name)}
         for n in walk_no_nested(fn):
+            if isinstance(n, (ast.With, ast.AsyncWith)):
+                # built on top of another context manager that yields the held list
+                for it in n.items:
+                    if isinstance(it.context_expr, ast.Call) and isinstance(it.optional_vars, ast.Name):
+                        r = ix.resolve_expr(m, it.context_expr.func)
+                        if r and r[0] == 'func' and (r[1].short, r[2].name) in known_ctx:
+                            held.add(it.optional_vars.id)
+        for n in walk_no_nested(fn):
             if isinstance(n, ast.Yield) and n.value is not None:
                 if isinstance(n.value, ast.Name) and n.value.id in held:
                     return True
@@ -473,12 +483,96 @@ def held_error_sources(ix, model):
                     if r and r[0] == 'func' and (r[1].short, r[2].name) in known:
                         return True
         return False
-    ctxs = set()
-    for m in ix.modules.values():
-        for name, fn in m.functions.items():
-            if yields_held(m, fn, prim):
-                ctxs.add((m.short, name))
+    ctxs = known_ctx
+    for _ in range(4):
+        before = len(ctxs)
+        for m in ix.modules.values():
+            for name, fn in m.functions.items():
+                if (m.short, name) not in ctxs and yields_held(m, fn, prim):
+                    ctxs.add((m.short, name))
+        if len(ctxs) == before:
+            break
     return prim, ctxs, elems
+
+
+def _reads_on(var_pred, scope_nodes, classes, how, out):
+    """append (var text, classes, node, kind 'index'|'unpack'|'attr', detail, how) for the payload reads on the variables selected by var_pred"""
+    for n in scope_nodes:
+        for x in ast.walk(n):
+            if isinstance(x, ast.Subscript) and isinstance(x.value, ast.Attribute) and x.value.attr == 'args' and var_pred(x.value.value) and isinstance(x.ctx, ast.Load):
+                idx = x.slice
+                if isinstance(idx, ast.UnaryOp) and isinstance(idx.op, ast.USub) and isinstance(idx.operand, ast.Constant) and isinstance(idx.operand.value, int):
+                    out.append((_u(x.value.value), classes, x, 'index', -idx.operand.value, how))
+                elif isinstance(idx, ast.Constant) and isinstance(idx.value, int):
+                    out.append((_u(x.value.value), classes, x, 'index', idx.value, how))
+            elif isinstance(x, ast.Assign) and isinstance(x.value, ast.Attribute) and x.value.attr == 'args' and var_pred(x.value.value) and \
+                    isinstance(x.targets[0], (ast.Tuple, ast.List)) and not any(isinstance(e, ast.Starred) for e in x.targets[0].elts):
+                out.append((_u(x.value.value), classes, x, 'unpack', len(x.targets[0].elts), how))
+            elif isinstance(x, ast.Attribute) and isinstance(x.ctx, ast.Load) and var_pred(x.value) and x.attr != 'args' and not x.attr.startswith('__'):
+                out.append((_u(x.value), classes, x, 'attr', x.attr, how))
+
+
+def typed_parameters(ix, model, prim, ctxs, elems):
+    """{(module, FunctionDef): {parameter: (classes, call sites)}} for the module-level functions of the compiler that are called with a nominally typed
+    exception: a variable bound by `except C as v`, a local assigned `C(...)`, or an element of a held-error list."""
+    out = {}
+    for m in sorted(ix.modules.values(), key=lambda mm: mm.rel):
+        if not m.rel.startswith('Cython/Compiler/'):
+            continue
+        for qn, owner, fn in ix.functions_of(m):
+            nodes = [n for n in walk_no_nested(fn) if isinstance(n, (ast.ExceptHandler, ast.With, ast.AsyncWith, ast.For, ast.AsyncFor, ast.Assign))]
+            if not any(isinstance(n, (ast.ExceptHandler, ast.With, ast.For)) or isinstance(n.value, ast.Call) for n in nodes):
+                continue
+            scopes = []         # (statements in which the binding holds, local name, classes)
+            assigned = {}
+            for n in nodes:
+                if isinstance(n, ast.ExceptHandler) and n.name and n.type is not None and not isinstance(n.type, ast.Tuple):
+                    r = ix.resolve_expr(m, n.type)
+                    if r and r[0] == 'class' and model.is_exception(r[1]):
+                        scopes.append((n.body, n.name, {r[1]}))
+                elif isinstance(n, ast.Assign):
+                    r = ix.resolve_expr(m, n.value.func) if isinstance(n.value, ast.Call) else None
+                    for t in n.targets:
+                        if isinstance(t, ast.Name):
+                            assigned.setdefault(t.id, []).append(r[1] if r and r[0] == 'class' and model.is_exception(r[1]) else None)
+            handler_names = {nm for _, nm, _ in scopes}
+            for nm, srcs in assigned.items():
+                if all(c is not None for c in srcs) and nm not in handler_names:
+                    scopes.append((fn.body, nm, set(srcs)))
+            held = set()
+            for n in nodes:
+                if isinstance(n, (ast.With, ast.AsyncWith)):
+                    for it in n.items:
+                        if isinstance(it.context_expr, ast.Call) and isinstance(it.optional_vars, ast.Name):
+                            r = ix.resolve_expr(m, it.context_expr.func)
+                            if r and r[0] == 'func' and (r[1].short, r[2].name) in ctxs:
+                                held.add(it.optional_vars.id)
+                elif isinstance(n, ast.Assign) and isinstance(n.value, ast.Call):
+                    r = ix.resolve_expr(m, n.value.func)
+                    if r and r[0] == 'func' and (r[1].short, r[2].name) in prim:
+                        held |= {t.id for t in n.targets if isinstance(t, ast.Name)}
+            for n in nodes:
+                if isinstance(n, (ast.For, ast.AsyncFor)) and isinstance(n.iter, ast.Name) and n.iter.id in held and isinstance(n.target, ast.Name) \
+                        and n.target.id not in handler_names and n.target.id not in assigned:
+                    scopes.append((n.body, n.target.id, set(elems)))
+            for body, nm, classes in scopes:
+                for st in body:
+                    for n in ast.walk(st):
+                        if not isinstance(n, ast.Call):
+                            continue
+                        r = ix.resolve_expr(m, n.func)
+                        if not (r and r[0] == 'func'):
+                            continue
+                        callee_mod, callee = r[1], r[2]
+                        params = [a.arg for a in callee.args.posonlyargs + callee.args.args]
+                        pairs = [(params[i], a) for i, a in enumerate(n.args) if i < len(params) and not isinstance(a, ast.Starred)]
+                        pairs += [(k.arg, k.value) for k in n.keywords if k.arg in params]
+                        for pname, a in pairs:
+                            if isinstance(a, ast.Name) and a.id == nm:
+                                ent = out.setdefault((callee_mod, callee), {}).setdefault(pname, (set(), set()))
+                                ent[0].update(classes)
+                                ent[1].add('%s.%s' % (m.short, qn))
+    return {k: {p: (sorted(cl, key=lambda c: c.qual), sites) for p, (cl, sites) in v.items()} for k, v in out.items()}
 
 
 def typed_exception_reads(ix, model, m, fn, prim, ctxs, elems):
@@ -486,19 +580,7 @@ def typed_exception_reads(ix, model, m, fn, prim, ctxs, elems):
     out = []
 
     def reads_on(var_pred, scope_nodes, classes, how):
-        for n in scope_nodes:
-            for x in ast.walk(n):
-                if isinstance(x, ast.Subscript) and isinstance(x.value, ast.Attribute) and x.value.attr == 'args' and var_pred(x.value.value) and isinstance(x.ctx, ast.Load):
-                    idx = x.slice
-                    if isinstance(idx, ast.UnaryOp) and isinstance(idx.op, ast.USub) and isinstance(idx.operand, ast.Constant) and isinstance(idx.operand.value, int):
-                        out.append((_u(x.value.value), classes, x, 'index', -idx.operand.value, how))
-                    elif isinstance(idx, ast.Constant) and isinstance(idx.value, int):
-                        out.append((_u(x.value.value), classes, x, 'index', idx.value, how))
-                elif isinstance(x, ast.Assign) and isinstance(x.value, ast.Attribute) and x.value.attr == 'args' and var_pred(x.value.value) and \
-                        isinstance(x.targets[0], (ast.Tuple, ast.List)) and not any(isinstance(e, ast.Starred) for e in x.targets[0].elts):
-                    out.append((_u(x.value.value), classes, x, 'unpack', len(x.targets[0].elts), how))
-                elif isinstance(x, ast.Attribute) and isinstance(x.ctx, ast.Load) and var_pred(x.value) and x.attr != 'args' and not x.attr.startswith('__'):
-                    out.append((_u(x.value), classes, x, 'attr', x.attr, how))
+        _reads_on(var_pred, scope_nodes, classes, how, out)
 
     # (a) except C as e
     for n in walk_no_nested(fn):
@@ -622,6 +704,36 @@ def rule_EXCSHAPE(ctx, floor=7):
                     r.info('%s: %s' % (key, why))
     if n_idx < 4:
         raise AnalysisError('only %d .args reads on typed exception variables found (held-error lists no longer recognised?)' % n_idx)
+    # (c) parameters that receive a nominally typed exception at some call site (Errors.report_error(err): err.reported, err.position ...)
+    n_par = 0
+    for (callee_mod, callee), per_param in sorted(typed_parameters(ix, model, prim, ctxs, elems).items(), key=lambda kv: (kv[0][0].rel, kv[0][1].name)):
+        for pname, (classes, sites) in sorted(per_param.items()):
+            stored = any(isinstance(n, ast.Name) and n.id == pname and isinstance(n.ctx, (ast.Store, ast.Del)) for n in walk_no_nested(callee))
+            if stored:
+                continue
+            out = []
+            _reads_on(lambda v, pname=pname: isinstance(v, ast.Name) and v.id == pname, callee.body, classes, 'argument of %s' % ', '.join(sorted(sites)[:3]), out)
+            seen = set()
+            for var, cls, node, kind, detail, how in out:
+                verdict, why = check_read(model, ix, cls, kind, detail)
+                if verdict == 'skip':
+                    continue
+                what = {'index': '%s.args[%s]' % (var, detail), 'unpack': '%s names = %s.args' % (detail, var), 'attr': '%s.%s' % (var, detail)}[kind]
+                key = '%s.%s:%s' % (callee_mod.short, callee.name, what)
+                if key in seen:
+                    continue
+                seen.add(key)
+                n_par += 1
+                cl = '/'.join(c if isinstance(c, str) else c.name for c in cls)
+                r.inst(key, sample='%s (%s: %s)' % (key, how, cl), nontrivial=verdict != 'ok' or kind != 'attr')
+                if verdict == 'bad':
+                    r.violate(key, callee_mod.rel, node.lineno, '%s.%s reads %s of its parameter, which receives a %s (%s), but %s: the read raises %s inside the compiler, '
+                              'an internal traceback instead of a positioned error' % (callee_mod.short, callee.name, what, cl, how, why,
+                                                                                     'AttributeError' if kind == 'attr' else 'IndexError/ValueError'))
+                elif verdict == 'unknown':
+                    r.info('%s: %s' % (key, why))
+    if n_par < 1:
+        raise AnalysisError('only %d reads on parameters receiving typed exceptions found (Errors.report_error(err) no longer recognised?)' % n_par)
     # positive control: a class that only calls Exception.__init__(self, one_string) has a 1-tuple
     cd = ast.parse(_EXC_PC).body[0]
 
@@ -631,4 +743,1593 @@ def rule_EXCSHAPE(ctx, floor=7):
     o.module = ix.mod('Errors')
     o.methods = {'__init__': cd.body[0]}
     r.positive_control(model.init_arity(o, cd.body[0]) == 1, 'exception class without an explicit self.args tuple: .args[1] is out of range')
+    return r
+
+
+# ====================================================================================================== C43-NONEORD
+# A function that returns a value on one path and None on another hands its callers an Optional.  Ordering comparisons (< <= > >=), arithmetic /
+# bitwise operators and unary minus raise TypeError on None -- inside the compiler that is an internal traceback
+# instead of a positioned error.  Every such use of an Optional result must be guarded by a test that excludes None (on the path, or earlier in the
+# same short-circuit expression).
+from ..engine import pyflow
+
+_BUILTIN_METHOD_NAMES = set()
+for _t in (str, bytes, bytearray, list, dict, set, frozenset, tuple, int, float, complex, object):
+    _BUILTIN_METHOD_NAMES |= set(dir(_t))
+_ORDER_OPS = (ast.Lt, ast.LtE, ast.Gt, ast.GtE)
+
+
+def _is_none(e):
+    return isinstance(e, ast.Constant) and e.value is None
+
+
+def _end_kinds(stmts, kinds):
+    """kinds of the last simple statement executed on the paths that run off the end of `stmts`
+    ('entry' nothing executed yet, 'plain', 'call' an expression statement that is a call and may not return); empty set: the end is not reached"""
+    for st in stmts:
+        if not kinds:
+            return kinds
+        if isinstance(st, (ast.Return, ast.Raise, ast.Break, ast.Continue)):
+            return set()
+        if isinstance(st, ast.If):
+            kinds = _end_kinds(st.body, set(kinds)) | (_end_kinds(st.orelse, set(kinds)) if st.orelse else set(kinds))
+        elif isinstance(st, (ast.For, ast.AsyncFor, ast.While)):
+            infinite = isinstance(st, ast.While) and isinstance(st.test, ast.Constant) and bool(st.test.value)
+            has_break = any(isinstance(x, ast.Break) for x in ast.walk(st))
+            if infinite and not has_break:
+                return set()
+            body = _end_kinds(st.body, set(kinds))
+            kinds = (set() if infinite else set(kinds)) | body | ({'plain'} if has_break else set())
+            if st.orelse:
+                kinds = _end_kinds(st.orelse, kinds) | ({'plain'} if has_break else set())
+        elif isinstance(st, ast.Try):
+            out = _end_kinds(st.body + st.orelse, set(kinds))
+            for h in st.handlers:
+                out |= _end_kinds(h.body, {'plain'})
+            kinds = _end_kinds(st.finalbody, out) if st.finalbody else out
+        elif isinstance(st, (ast.With, ast.AsyncWith)):
+            kinds = _end_kinds(st.body, set(kinds))
+        elif isinstance(st, ast.Match):
+            out = set(kinds)
+            for c in st.cases:
+                out |= _end_kinds(c.body, set(kinds))
+            kinds = out
+        elif isinstance(st, ast.Expr) and isinstance(st.value, ast.Call):
+            kinds = {'call'}
+        elif isinstance(st, (ast.FunctionDef, ast.AsyncFunctionDef, ast.ClassDef, ast.Pass)) or (isinstance(st, ast.Expr) and isinstance(st.value, ast.Constant)):
+            pass
+        else:
+            kinds = {'plain'}
+    return kinds
+
+
+def optional_result(fn):
+    """'return None' | 'bare return' | 'end of body' if the function returns a value on some path and None on another; else None.
+    A path that runs off the end right after an expression-statement call (an error reporter that may raise) is not counted."""
+    rets, gen = [], False
+    for n in walk_no_nested(fn):
+        if isinstance(n, ast.Return):
+            rets.append(n)
+        elif isinstance(n, (ast.Yield, ast.YieldFrom)):
+            gen = True
+    if gen or not any(r.value is not None and not _is_none(r.value) for r in rets):
+        return None
+    if any(r.value is not None and _is_none(r.value) for r in rets):
+        return 'return None'
+    if any(r.value is None for r in rets):
+        return 'bare return'
+    ends = _end_kinds(fn.body, {'entry'})
+    if ends & {'entry', 'plain'}:
+        return 'end of body'
+    return None
+
+
+class OptionalModel:
+    def __init__(self, ix):
+        self.ix = ix
+        self.by_name = {}
+        for m in ix.modules.values():
+            for qn, owner, fn in ix.functions_of(m):
+                self.by_name.setdefault(fn.name, []).append((m, qn, owner, fn))
+        self._opt = {}
+
+    def opt(self, fn):
+        if id(fn) not in self._opt:
+            self._opt[id(fn)] = optional_result(fn)
+        return self._opt[id(fn)]
+
+    def callee(self, m, owner, call):
+        """-> (label, how None is returned) when every definition the call can nominally reach returns an Optional; else None"""
+        f = call.func
+        if isinstance(f, ast.Name):
+            r = self.ix.resolve_name(m, f.id) if m is not None else None
+            if r and r[0] == 'func' and self.opt(r[2]):
+                return ('%s.%s' % (r[1].short, r[2].name), self.opt(r[2]))
+            return None
+        if not isinstance(f, ast.Attribute):
+            return None
+        if isinstance(f.value, ast.Name) and f.value.id == 'self' and owner is not None:
+            fm = self.ix.find_method(owner, f.attr)
+            if fm and self.opt(fm[1]):
+                return ('%s.%s' % (fm[0].name, f.attr), self.opt(fm[1]))
+            return None
+        r = self.ix.resolve_expr(m, f) if m is not None else None
+        if r and r[0] == 'func':
+            return ('%s.%s' % (r[1].short, r[2].name), self.opt(r[2])) if self.opt(r[2]) else None
+        if f.attr in _BUILTIN_METHOD_NAMES:
+            return None
+        defs = [d for d in self.by_name.get(f.attr, ()) if d[2] is not None]
+        if defs and all(self.opt(d[3]) for d in defs):
+            d = defs[0]
+            return ('%s.%s' % (d[2].name, f.attr), self.opt(d[3]))
+        return None
+
+
+def _none_sensitive_operands(n):
+    """operands of n that must not be None: [(operand, what)]"""
+    out = []
+    if isinstance(n, ast.Compare):
+        seq = [n.left] + list(n.comparators)
+        for i, op in enumerate(n.ops):
+            if isinstance(op, _ORDER_OPS):
+                out += [(seq[i], 'ordering comparison'), (seq[i + 1], 'ordering comparison')]
+    elif isinstance(n, ast.BinOp):
+        if not (isinstance(n.op, ast.Mod) and isinstance(n.left, (ast.Constant, ast.JoinedStr)) and isinstance(getattr(n.left, 'value', ''), (str, bytes, list))):
+            out.append((n.left, 'arithmetic'))
+        if not isinstance(n.op, ast.Mod):
+            out.append((n.right, 'arithmetic'))
+    elif isinstance(n, ast.UnaryOp) and isinstance(n.op, (ast.USub, ast.UAdd, ast.Invert)):
+        out.append((n.operand, 'arithmetic'))
+    elif isinstance(n, ast.AugAssign):
+        out.append((n.value, 'arithmetic'))
+        out.append((n.target, 'arithmetic'))
+    return out
+
+
+def _excludes_none(test, truth, text):
+    """does `test` having the truth value `truth` imply that the expression with source `text` is not None?"""
+    if isinstance(test, ast.UnaryOp) and isinstance(test.op, ast.Not):
+        return _excludes_none(test.operand, not truth, text)
+    if isinstance(test, ast.BoolOp):
+        if (isinstance(test.op, ast.And) and truth) or (isinstance(test.op, ast.Or) and not truth):
+            return any(_excludes_none(v, truth, text) for v in test.values)
+        return all(_excludes_none(v, truth, text) for v in test.values)
+    if isinstance(test, ast.Compare) and len(test.ops) == 1:
+        op, a, b = test.ops[0], test.left, test.comparators[0]
+        for x, y in ((a, b), (b, a)):
+            if _u(x) == text:
+                if _is_none(y):
+                    if isinstance(op, (ast.Is, ast.Eq)):
+                        return not truth
+                    if isinstance(op, (ast.IsNot, ast.NotEq)):
+                        return truth
+                elif isinstance(y, ast.Constant) and isinstance(op, (ast.Is, ast.Eq)):
+                    return truth
+                elif isinstance(op, _ORDER_OPS):
+                    return True        # the comparison was evaluated without raising
+        return False
+    if isinstance(test, ast.Call) and isinstance(test.func, ast.Name) and test.func.id == 'isinstance' and len(test.args) == 2 and _u(test.args[0]) == text:
+        return truth and 'None' not in _u(test.args[1])
+    if _u(test) == text:
+        return truth          # truthy => not None
+    return False
+
+
+def _sensitive_uses(node, guards=()):
+    """(operator node, operand, what, guards) inside one statement / test; `guards` are the (test, truth) pairs the short-circuit evaluation
+    establishes before the operand is evaluated"""
+    if isinstance(node, (ast.FunctionDef, ast.AsyncFunctionDef, ast.ClassDef, ast.Lambda)):
+        return
+    for operand, what in _none_sensitive_operands(node):
+        yield node, operand, what, guards
+    if isinstance(node, ast.BoolOp):
+        truth = isinstance(node.op, ast.And)
+        g = tuple(guards)
+        for v in node.values:
+            yield from _sensitive_uses(v, g)
+            g = g + ((v, truth),)
+    elif isinstance(node, ast.IfExp):
+        yield from _sensitive_uses(node.test, guards)
+        yield from _sensitive_uses(node.body, tuple(guards) + ((node.test, True),))
+        yield from _sensitive_uses(node.orelse, tuple(guards) + ((node.test, False),))
+    elif isinstance(node, (ast.ListComp, ast.SetComp, ast.GeneratorExp, ast.DictComp)):
+        g = tuple(guards)
+        for comp in node.generators:
+            yield from _sensitive_uses(comp.iter, g)
+            for cond in comp.ifs:
+                yield from _sensitive_uses(cond, g)
+                g = g + ((cond, True),)
+        for part in ([node.key, node.value] if isinstance(node, ast.DictComp) else [node.elt]):
+            yield from _sensitive_uses(part, g)
+    else:
+        for ch in ast.iter_child_nodes(node):
+            yield from _sensitive_uses(ch, guards)
+
+
+def optional_uses(model, m, owner, fn):
+    """-> {site key: (line, operand text, producer label, how None, what, unguarded?)} for one function"""
+    # cheap filter: does anything in the function call an Optional-returning function?
+    calls = {}
+    for n in walk_no_nested(fn):
+        if isinstance(n, ast.Call):
+            c = model.callee(m, owner, n)
+            if c:
+                calls[id(n)] = c
+    if not calls:
+        return {}
+    sites = {}
+
+    def look(node, state):
+        maybe = {f[1]: f[2:] for f in state if isinstance(f, tuple) and f and f[0] == 'OPT'}
+        cleared = {f[1]: f[2:] for f in state if isinstance(f, tuple) and f and f[0] == 'OPT-CLEARED'}
+        facts = [(f[1], f[2]) for f in state if isinstance(f, tuple) and f and f[0] == '?']
+        for opnode, operand, what, guards in _sensitive_uses(node):
+            if isinstance(operand, ast.Call) and id(operand) in calls:
+                text, (label, how) = _u(operand), calls[id(operand)]
+            elif isinstance(operand, ast.Name) and operand.id in maybe:
+                text, (label, how) = operand.id, maybe[operand.id]
+            elif isinstance(operand, ast.Name) and operand.id in cleared:
+                text, (label, how) = operand.id, cleared[operand.id]
+            else:
+                continue
+            ok = (isinstance(operand, ast.Name) and operand.id in cleared and operand.id not in maybe) or any(_excludes_none(t, truth, text) for t, truth in guards)
+            if not ok:
+                for ftext, truth in facts:
+                    try:
+                        e = ast.parse(ftext, mode='eval').body
+                    except SyntaxError:
+                        continue
+                    if _excludes_none(e, truth, text):
+                        ok = True
+                        break
+            k = (text, ' '.join(_u(opnode).split()))
+            prev = sites.get(k)
+            sites[k] = (opnode.lineno, text, label, how, what, (prev[5] if prev else False) or not ok)
+
+    def tr(node, state):
+        if isinstance(node, (ast.FunctionDef, ast.AsyncFunctionDef, ast.ClassDef)):
+            return state
+        look(node, state)
+        s = set(state)
+        if isinstance(node, (ast.Assign, ast.AnnAssign, ast.AugAssign)):
+            targets = node.targets if isinstance(node, ast.Assign) else [node.target]
+            names = {x.id for t in targets for x in ast.walk(t) if isinstance(x, ast.Name) and isinstance(x.ctx, ast.Store)}
+            s = {f for f in s if not (isinstance(f, tuple) and f and f[0] in ('OPT', 'OPT-CLEARED') and f[1] in names)}
+            v = getattr(node, 'value', None)
+            if isinstance(node, (ast.Assign, ast.AnnAssign)) and isinstance(v, ast.Call) and id(v) in calls:
+                for t in targets:
+                    if isinstance(t, ast.Name):
+                        s.add(('OPT', t.id) + calls[id(v)])
+        elif isinstance(node, (ast.Name, ast.Tuple, ast.List)) and isinstance(getattr(node, 'ctx', None), ast.Store):
+            names = {x.id for x in ast.walk(node) if isinstance(x, ast.Name)}
+            s = {f for f in s if not (isinstance(f, tuple) and f and f[0] in ('OPT', 'OPT-CLEARED') and f[1] in names)}
+        elif isinstance(node, ast.withitem) and node.optional_vars is not None:
+            names = {x.id for x in ast.walk(node.optional_vars) if isinstance(x, ast.Name)}
+            s = {f for f in s if not (isinstance(f, tuple) and f and f[0] in ('OPT', 'OPT-CLEARED') and f[1] in names)}
+        return frozenset(s)
+
+    def refine(test, truth, state):
+        # a branch on which the variable is known to be None / not None
+        out = set(state)
+        for f in state:
+            if isinstance(f, tuple) and f and f[0] == 'OPT' and _excludes_none(test, truth, f[1]):
+                out.discard(f)
+                out.add(('OPT-CLEARED',) + f[1:])
+        return frozenset(out)
+    try:
+        pyflow.Flow(tr, refine=refine).run(fn)
+    except pyflow.TooManyStates:
+        return {('<function>', fn.name): (fn.lineno, fn.name, '', '', 'too many path states', None)}
+    return sites
+
+
+_NONEORD_BAD = ("class St:\n    def level(self):\n        if not self.states:\n            return None\n        return self.states[-1].level\n"
+                "class Sc:\n    def close(self):\n        if self.depth < self.stack[-1].level():\n            self.err()\n")
+_NONEORD_GOOD = ("class St:\n    def level(self):\n        if self.states:\n            return self.states[-1].level\n"
+                 "class Sc:\n    def close(self):\n        lv = self.stack[-1].level()\n        if lv is None:\n            return self.err()\n        if self.depth < lv:\n            self.err()\n"
+                 "    def close2(self):\n        lv = self.stack[-1].level()\n        if not (lv is not None and self.depth >= lv):\n            self.err()\n"
+                 "    def close3(self):\n        if self.stack[-1].level() is None or self.depth < self.stack[-1].level():\n            self.err()\n"
+                 "    def eq(self):\n        return self.stack[-1].level() == self.depth\n")
+
+
+class _MiniIndex:
+    """just enough of PyIndex for OptionalModel on an embedded example"""
+    def __init__(self, src):
+        self.tree = ast.parse(src)
+        self.modules = {}
+        self.classes = {c.name: c for c in self.tree.body if isinstance(c, ast.ClassDef)}
+
+    def functions(self):
+        for c in self.classes.values():
+            for f in c.body:
+                if isinstance(f, ast.FunctionDef):
+                    yield c, f
+
+
+def _mini_noneord(src):
+    mi = _MiniIndex(src)
+
+    class M(OptionalModel):
+        def __init__(self):
+            self.ix = None
+            self._opt = {}
+            self.by_name = {}
+            for c, f in mi.functions():
+                self.by_name.setdefault(f.name, []).append((None, f.name, c, f))
+
+        def callee(self, m, owner, call):
+            f = call.func
+            if isinstance(f, ast.Attribute) and f.attr not in _BUILTIN_METHOD_NAMES:
+                defs = self.by_name.get(f.attr, ())
+                if defs and all(self.opt(d[3]) for d in defs):
+                    return ('%s.%s' % (defs[0][2].name, f.attr), self.opt(defs[0][3]))
+            return None
+    model = M()
+    res = {}
+    for c, f in mi.functions():
+        for k, v in optional_uses(model, None, c, f).items():
+            res[(f.name,) + k] = v
+    return res
+
+
+def rule_NONEORD(ctx, floor=2):
+    r = Rule('C43-NONEORD', 'the result of a function that returns None on one path and a value on another is an operand of an ordering comparison / arithmetic operator '
+                            'only behind a test that excludes None (TypeError inside the compiler otherwise)', floor)
+    ix = ctx.index
+    model = OptionalModel(ix)
+    n_opt = sum(1 for lst in model.by_name.values() for d in lst if model.opt(d[3]))
+    if n_opt < 100:
+        raise AnalysisError('only %d functions with an Optional result found in the package (return analysis broken?)' % n_opt)
+    for m in sorted(ix.modules.values(), key=lambda mm: mm.rel):
+        if not (m.rel.startswith('Cython/Compiler/') or m.rel.startswith('Cython/Plex/') or m.rel.startswith('Cython/Build/') or m.rel.count('/') == 1):
+            continue
+        for qn, owner, fn in ix.functions_of(m):
+            for (text, optext), (line, _, label, how, what, bad) in sorted(optional_uses(model, m, owner, fn).items()):
+                key = '%s.%s:%s' % (m.short, qn, optext if len(optext) <= 90 else optext[:87] + '...')
+                if bad is None:
+                    r.info('%s: %s' % (key, what))
+                    continue
+                r.inst(key, sample='%s (%s of the result of %s, which may be None: %s)' % (key, what, label, how))
+                if bad:
+                    r.violate(key, m.rel, line, '%s.%s uses `%s` in an %s (`%s`), but %s returns None on one of its paths (%s) and no test on the way excludes None: '
+                              'the operator raises TypeError inside the compiler - an internal traceback instead of a positioned error or generated code'
+                              % (m.short, qn, text, what, optext, label, how))
+    bad = _mini_noneord(_NONEORD_BAD)
+    good = _mini_noneord(_NONEORD_GOOD)
+    r.positive_control(len(bad) == 1 and all(v[5] for v in bad.values()) and len(good) >= 3 and not any(v[5] for v in good.values()),
+                       'ordering comparison with an unguarded Optional result / four guarded or None-tolerant forms')
+    return r
+
+
+# ====================================================================================================== C43-LEXCASE / C43-CPREFIX
+# The lexer (Lexicon.make_lexicon) accepts the marker letters of an integer literal in character classes: Any("Xx"), Any("Oo"), Any("Bb"), Any("Uu"),
+# Any("Ll").  Both spellings of a class denote the same literal (PEP 3127), so every function that inspects the literal *text* must treat them alike:
+#   C43-LEXCASE  the function, partially evaluated for "the inspected character is c" and for "... is C" (c, C the two cases of a letter in one
+#                lexer class), leaves the same residual program.  A test that knows only one case sends the other spelling down a different path
+#                (0O17 copied into the C file, a 0X literal parsed as Py2 octal -> ValueError, `1L` counted as unsigned ...).
+#   C43-CPREFIX  in the function that spells an IntNode for the C file, every path taken by a prefix letter that C99 does not have (6.4.4.1 knows
+#                0x / 0X and the bare leading 0 only) rewrites the text before it is returned.
+C99_PREFIX_LETTERS = frozenset('xX')       # ISO C99 6.4.4.1: hexadecimal-prefix is 0x or 0X; octal constants start with a bare 0
+_STR_PREDICATES = ('isdigit', 'isalpha', 'isalnum', 'islower', 'isupper', 'isspace', 'isdecimal', 'isnumeric', 'isascii', 'isidentifier')
+_TEXT_KEEPING_METHODS = ('strip', 'lstrip', 'rstrip', 'replace', 'removeprefix', 'removesuffix')
+_CASE_FOLDING_METHODS = ('lower', 'upper', 'casefold', 'swapcase')
+
+
+def int_literal_classes(ctx):
+    """-> (all Any() classes reachable from the pattern of the INT token, the classes standing right after Str("0") i.e. the prefix classes)"""
+    tree = ctx.parse('Cython/Compiler/Lexicon.py')
+    mk = tables.find_function(tree, 'make_lexicon')
+    if mk is None:
+        raise AnalysisError('Lexicon.make_lexicon vanished')
+    mod_strs = {}
+    for st in tree.body:
+        if isinstance(st, ast.Assign) and len(st.targets) == 1 and isinstance(st.targets[0], ast.Name):
+            v = _fold_str(st.value, mod_strs)
+            if v is not None:
+                mod_strs[st.targets[0].id] = v
+    env, funcs = {}, {}
+    for st in mk.body:
+        if isinstance(st, ast.Assign) and len(st.targets) == 1 and isinstance(st.targets[0], ast.Name):
+            env[st.targets[0].id] = st.value
+        elif isinstance(st, ast.FunctionDef):
+            funcs[st.name] = st
+    root = None
+    for n in ast.walk(mk):
+        if isinstance(n, ast.Tuple) and len(n.elts) == 2 and isinstance(n.elts[1], ast.Call) and any(
+                k.arg == 'symbol' and isinstance(k.value, ast.Constant) and k.value.value == 'INT' for k in n.elts[1].keywords):
+            root = n.elts[0]
+    if root is None:
+        raise AnalysisError("Lexicon: no token-table row (pattern, Method(..., symbol='INT')) found")
+
+    def reach(node, seen, out):
+        for x in ast.walk(node):
+            if isinstance(x, ast.Call) and isinstance(x.func, ast.Name) and x.func.id == 'Any' and len(x.args) == 1:
+                s = _fold_str(x.args[0], mod_strs)
+                if s is None:
+                    raise AnalysisError('Lexicon: Any(%s) is not a constant string' % _u(x.args[0]))
+                out.append(s)
+            elif isinstance(x, ast.Name) and x.id in env and x.id not in seen:
+                seen.add(x.id)
+                reach(env[x.id], seen, out)
+            elif isinstance(x, ast.Call) and isinstance(x.func, ast.Name) and x.func.id in funcs and ('fn:' + x.func.id) not in seen:
+                seen.add('fn:' + x.func.id)
+                for st in ast.walk(funcs[x.func.id]):
+                    if isinstance(st, ast.Return) and st.value is not None:
+                        reach(st.value, seen, out)
+        return out
+    classes = reach(root, set(), [])
+    prefix = []
+    seen = set()
+    todo = [root]
+    while todo:
+        node = todo.pop()
+        for x in ast.walk(node):
+            if isinstance(x, ast.Name) and x.id in env and x.id not in seen:
+                seen.add(x.id)
+                todo.append(env[x.id])
+            if isinstance(x, ast.BinOp) and isinstance(x.op, ast.Add) and isinstance(x.left, ast.Call) and isinstance(x.left.func, ast.Name) and x.left.func.id == 'Str' \
+                    and [tables.literal(a) for a in x.left.args] == ['0']:
+                for s in reach(x.right, set(), []):
+                    if s and all(ch.isalpha() for ch in s):
+                        prefix.append(s)
+    if not any(len(k) == 2 and k[0].isalpha() and k[0].swapcase() == k[1] for k in classes):
+        raise AnalysisError('Lexicon: the INT pattern has no two-case marker class (Any("Xx") ...): pattern extraction broken')
+    if not prefix:
+        raise AnalysisError('Lexicon: no prefix class after Str("0") found in the INT pattern')
+    return classes, prefix
+
+
+def _fold_str(node, env):
+    if isinstance(node, ast.Constant) and isinstance(node.value, str):
+        return node.value
+    if isinstance(node, ast.Name) and node.id in env:
+        return env[node.id]
+    if isinstance(node, ast.BinOp) and isinstance(node.op, ast.Add):
+        a, b = _fold_str(node.left, env), _fold_str(node.right, env)
+        if a is not None and b is not None:
+            return a + b
+    return None
+
+
+def case_pairs(classes):
+    """{lowercase letter: class text} for the letters whose two cases stand in one lexer class"""
+    out = {}
+    for k in classes:
+        for ch in k:
+            if ch.isalpha() and ch.islower() and ch.upper() in k and ch.upper() != ch:
+                out.setdefault(ch, k)
+    return out
+
+
+class LiteralText:
+    """which expressions of a function denote (parts of) the unmodified text of an integer literal token"""
+
+    def __init__(self, fn, roots):
+        self.fn = fn
+        self.roots = set(roots)          # expression texts: 'self.value', parameter names ...
+        self.names = set(r for r in roots if r.isidentifier())
+        self.folded = set()
+        changed = True
+        while changed:
+            changed = False
+            for n in walk_no_nested(fn):
+                if isinstance(n, (ast.Assign, ast.AnnAssign)) and getattr(n, 'value', None) is not None:
+                    tg = n.targets if isinstance(n, ast.Assign) else [n.target]
+                    for t in tg:
+                        if isinstance(t, ast.Name):
+                            if t.id not in self.names and self.is_text(n.value):
+                                self.names.add(t.id)
+                                changed = True
+                            if t.id not in self.folded and self.is_folded(n.value):
+                                self.folded.add(t.id)
+                                changed = True
+
+    def is_text(self, e):
+        if _u(e) in self.roots:
+            return True
+        if isinstance(e, ast.Name):
+            return e.id in self.names
+        if isinstance(e, ast.Subscript):
+            return self.is_text(e.value)
+        if isinstance(e, ast.IfExp):
+            return self.is_text(e.body) or self.is_text(e.orelse)
+        if isinstance(e, ast.Call):
+            f = e.func
+            if isinstance(f, ast.Attribute) and f.attr in _TEXT_KEEPING_METHODS:
+                return self.is_text(f.value)
+            if isinstance(f, ast.Attribute) and f.attr == 'cast' and len(e.args) == 2:
+                return self.is_text(e.args[1])
+            if isinstance(f, ast.Name) and f.id == 'str' and len(e.args) == 1 and isinstance(e.args[0], (ast.Name, ast.Attribute)):
+                return self.is_text(e.args[0])
+        return False
+
+    def is_folded(self, e):
+        if isinstance(e, ast.Name):
+            return e.id in self.folded
+        if isinstance(e, ast.Subscript):
+            return self.is_folded(e.value)
+        if isinstance(e, ast.Call) and isinstance(e.func, ast.Attribute):
+            if e.func.attr in _CASE_FOLDING_METHODS:
+                return self.is_text(e.func.value) or self.is_folded(e.func.value)
+            if e.func.attr in _TEXT_KEEPING_METHODS:
+                return self.is_folded(e.func.value)
+        return False
+
+
+def _const_letters(e):
+    """the characters a constant operand of a character test offers: str for a constant string / tuple-list-set of strings; None otherwise"""
+    if isinstance(e, ast.Constant) and isinstance(e.value, str):
+        return e.value
+    if isinstance(e, (ast.Tuple, ast.List, ast.Set)) and e.elts and all(isinstance(x, ast.Constant) and isinstance(x.value, str) for x in e.elts):
+        return ''.join(x.value for x in e.elts)
+    return None
+
+
+def char_tests(fn, lt):
+    """[(tested expression text, letters of the constant, Compare node, folded?)] for the comparisons of literal text with constant characters"""
+    out = []
+    for n in walk_no_nested(fn):
+        if isinstance(n, ast.Compare) and len(n.ops) == 1:
+            op, a, b = n.ops[0], n.left, n.comparators[0]
+            if isinstance(op, (ast.In, ast.NotIn)):
+                cands = [(a, b)]
+            elif isinstance(op, (ast.Eq, ast.NotEq)):
+                cands = [(a, b), (b, a)]
+            else:
+                continue
+            for x, c in cands:
+                letters = _const_letters(c)
+                if letters is None or isinstance(x, ast.Constant):
+                    continue
+                if isinstance(x, ast.Subscript) and not isinstance(x.slice, ast.Slice) and (lt.is_text(x) or lt.is_folded(x)):
+                    out.append((_u(x), letters, n, lt.is_folded(x)))
+                elif isinstance(x, ast.Name) and (x.id in lt.names or x.id in lt.folded) and _char_alias(fn, x.id, lt):
+                    out.append((x.id, letters, n, x.id in lt.folded and x.id not in lt.names))
+    return out
+
+
+def _char_alias(fn, name, lt):
+    """is the local `name` assigned a single character of the literal text (value[1]) somewhere?"""
+    for n in walk_no_nested(fn):
+        if isinstance(n, ast.Assign) and any(isinstance(t, ast.Name) and t.id == name for t in n.targets):
+            v = n.value
+            while isinstance(v, ast.Call) and isinstance(v.func, ast.Attribute) and v.func.attr in _CASE_FOLDING_METHODS + _TEXT_KEEPING_METHODS:
+                v = v.func.value
+            if isinstance(v, ast.Subscript) and (not isinstance(v.slice, ast.Slice) or _one_char_slice(v.slice) is not None) and (lt.is_text(v) or lt.is_folded(v)):
+                return True
+    return False
+
+
+def _one_char_slice(sl):
+    """k for a slice [k:k+1] with constant bounds, else None"""
+    if isinstance(sl, ast.Slice) and sl.step is None and isinstance(sl.lower, ast.Constant) and isinstance(sl.upper, ast.Constant) \
+            and isinstance(sl.lower.value, int) and isinstance(sl.upper.value, int) and sl.upper.value == sl.lower.value + 1:
+        return sl.lower.value
+    return None
+
+
+class Specialiser:
+    """partial evaluation of a function body under the assumption `<etext> == letter` (a one-character string)"""
+
+    def __init__(self, etext, letter):
+        self.etext, self.letter = etext, letter
+        self.names = {x.id for x in ast.walk(ast.parse(etext, mode='eval')) if isinstance(x, ast.Name)}
+        self.alive = True
+        self.examined = False
+
+    # ---- expressions
+    def truth(self, e):
+        """True / False / None (not decided by the assumption)"""
+        if isinstance(e, ast.Constant):
+            return bool(e.value)
+        if isinstance(e, ast.UnaryOp) and isinstance(e.op, ast.Not):
+            t = self.truth(e.operand)
+            return None if t is None else not t
+        if isinstance(e, ast.BoolOp):
+            is_and = isinstance(e.op, ast.And)
+            unknown = False
+            for v in e.values:
+                t = self.truth(v)
+                if t is None:
+                    unknown = True
+                elif t != is_and:
+                    return t
+            return None if unknown else is_and
+        if not self.alive:
+            return None
+        if isinstance(e, ast.Compare) and len(e.ops) == 1:
+            op, a, b = e.ops[0], e.left, e.comparators[0]
+            for x, c in ((a, b), (b, a)):
+                if _u(x) != self.etext:
+                    continue
+                letters = _const_letters(c)
+                if letters is None:
+                    continue
+                if isinstance(op, (ast.In, ast.NotIn)) and x is a:
+                    if isinstance(c, ast.Constant):
+                        r = self.letter in letters
+                    else:
+                        r = self.letter in [y.value for y in c.elts]
+                    self.examined = True
+                    return r if isinstance(op, ast.In) else not r
+                if isinstance(op, (ast.Eq, ast.NotEq)) and isinstance(c, ast.Constant):
+                    self.examined = True
+                    r = self.letter == c.value
+                    return r if isinstance(op, ast.Eq) else not r
+        if isinstance(e, ast.Call) and isinstance(e.func, ast.Attribute) and e.func.attr in _STR_PREDICATES and not e.args and not e.keywords \
+                and _u(e.func.value) == self.etext:
+            self.examined = True
+            return bool(getattr(self.letter, e.func.attr)())      # a str predicate of the interpreter on a one-character string
+        return None
+
+    def residual_expr(self, e):
+        sp = self
+
+        class T(ast.NodeTransformer):
+            def visit_IfExp(self, n):
+                t = sp.truth(n.test)
+                if t is None:
+                    return self.generic_visit(n)
+                return self.visit(n.body if t else n.orelse)
+
+            def visit_BoolOp(self, n):
+                t = sp.truth(n)
+                if t is not None:
+                    return ast.Constant(value=t)
+                is_and = isinstance(n.op, ast.And)
+                vals = []
+                for v in n.values:
+                    tv = sp.truth(v)
+                    if tv is None:
+                        vals.append(self.visit(v))
+                    # a decided operand that does not decide the whole is the neutral element: dropped
+                if len(vals) == 1:
+                    return vals[0]
+                return ast.BoolOp(op=n.op, values=vals)
+
+            def visit_Compare(self, n):
+                t = sp.truth(n)
+                return ast.Constant(value=t) if t is not None else self.generic_visit(n)
+
+            def visit_UnaryOp(self, n):
+                t = sp.truth(n)
+                return ast.Constant(value=t) if t is not None else self.generic_visit(n)
+
+            def visit_Call(self, n):
+                t = sp.truth(n)
+                return ast.Constant(value=t) if t is not None else self.generic_visit(n)
+        import copy
+        return ast.dump(T().visit(copy.deepcopy(e)))
+
+    # ---- statements
+    def _assigned(self, node):
+        out = set()
+        for n in ast.walk(node):
+            if isinstance(n, ast.Name) and isinstance(n.ctx, (ast.Store, ast.Del)):
+                out.add(n.id)
+        return out
+
+    def _kill_if_assigned(self, node):
+        # a subscript of the text (`value[-1]`) is assumed to be the letter where it is first tested; assignments to its base before that point
+        # only prepare the text, assignments after it end the assumption
+        if self.alive and (self.examined or self.etext.isidentifier()) and self._assigned(node) & self.names:
+            self.alive = False
+
+    def block(self, stmts):
+        out = []
+        for st in stmts:
+            x_before = self.examined
+            if isinstance(st, ast.If):
+                t = self.truth(st.test)
+                if self.examined and not x_before:
+                    out.append(('examined',))
+                if t is True:
+                    out += self.block(st.body)
+                elif t is False:
+                    out += self.block(st.orelse)
+                else:
+                    test = self.residual_expr(st.test)
+                    a0, x0 = self.alive, self.examined
+                    body = self.block(st.body)
+                    a1 = self.alive
+                    self.alive, self.examined = a0, x0
+                    orelse = self.block(st.orelse)
+                    self.alive = self.alive and a1
+                    self.examined = x0          # per path: the branches carry their own ('examined',) markers
+                    out.append(('if', test, body, orelse, st))
+            elif isinstance(st, (ast.While, ast.For, ast.AsyncFor)):
+                head = []
+                if isinstance(st, ast.While):
+                    t = self.truth(st.test)
+                    if t is False:
+                        out += self.block(st.orelse)
+                        continue
+                    if t is True:
+                        # the first iteration sees the assumed character
+                        head = self.block(st.body)
+                self._kill_if_assigned(st)
+                hdr = self.residual_expr(st.test) if isinstance(st, ast.While) else ast.dump(st.target) + ast.dump(st.iter)
+                out.append(('loop', hdr, head, self.block(st.body), self.block(st.orelse), st))
+            elif isinstance(st, ast.Try):
+                parts = [self.block(st.body)]
+                self._kill_if_assigned(st)
+                parts += [self.block(h.body) for h in st.handlers] + [self.block(st.orelse), self.block(st.finalbody)]
+                out.append(('try', tuple(ast.dump(h.type) if h.type is not None else '' for h in st.handlers), parts, st))
+            elif isinstance(st, (ast.With, ast.AsyncWith)):
+                hdr = ''.join(ast.dump(i) for i in st.items)
+                self._kill_if_assigned(ast.Module(body=[ast.Expr(i.optional_vars) for i in st.items if i.optional_vars is not None], type_ignores=[]))
+                out.append(('with', hdr, self.block(st.body), st))
+            elif isinstance(st, (ast.FunctionDef, ast.AsyncFunctionDef, ast.ClassDef)):
+                out.append(('def', ast.dump(st), st))
+            else:
+                out.append(('s', self.residual_expr(st), st))
+                if self.examined and not x_before:
+                    out.append(('examined',))
+                defines = isinstance(st, ast.Assign) and any(isinstance(t, ast.Name) and t.id == self.etext for t in st.targets)
+                if defines:
+                    self.alive = True
+                    if not self.examined:
+                        self.examined = True
+                        out.append(('examined',))
+                else:
+                    self._kill_if_assigned(st)
+        return out
+
+
+def _strip_nodes(res):
+    """the residual without the AST nodes / flags it carries, for comparison"""
+    out = []
+    for item in res:
+        k = item[0]
+        if k == 'examined':
+            continue
+        if k == 'if':
+            out.append(('if', item[1], _strip_nodes(item[2]), _strip_nodes(item[3])))
+        elif k == 'loop':
+            out.append(('loop', item[1], _strip_nodes(item[2]), _strip_nodes(item[3]), _strip_nodes(item[4])))
+        elif k == 'try':
+            out.append(('try', item[1], tuple(tuple(_strip_nodes(p)) for p in item[2])))
+        elif k == 'with':
+            out.append(('with', item[1], _strip_nodes(item[2])))
+        else:
+            out.append((k, item[1]))
+    return out
+
+
+def _first_difference(a, b):
+    """source line of the first statement at which two residuals differ"""
+    a, b = [x for x in a if x[0] != 'examined'], [y for y in b if y[0] != 'examined']
+    for x, y in zip(a, b):
+        if _strip_nodes([x]) != _strip_nodes([y]):
+            if x[0] == y[0] == 'if' and x[1] == y[1]:
+                return _first_difference(x[2], y[2]) or _first_difference(x[3], y[3]) or x[-1].lineno
+            node = x[2] if x[0] in ('s', 'def') else x[-1]
+            return getattr(node, 'lineno', None)
+    if len(a) != len(b):
+        rest = a[len(b):] or b[len(a):]
+        node = rest[0][2] if rest[0][0] in ('s', 'def') else rest[0][-1]
+        return getattr(node, 'lineno', None)
+    return None
+
+
+def specialise(fn, etext, letter):
+    sp = Specialiser(etext, letter)
+    # the assumption starts to hold where the tested expression is (re)defined; for a subscript of the text it holds from the entry
+    sp.alive = not etext.isidentifier()
+    return sp.block(fn.body), sp
+
+
+def lexcase_findings(fn, lt, pairs):
+    """-> [(key suffix, sample, lineno, problem or None)] for one function: one obligation per (tested expression, two-case letter)"""
+    tests = char_tests(fn, lt)
+    out = []
+    seen = set()
+    for etext, letters, node, folded in tests:
+        for low in sorted({ch.lower() for ch in letters if ch.lower() in pairs}):
+            if (etext, low) in seen:
+                continue
+            seen.add((etext, low))
+            k = '%s~%s%s' % (etext, low, low.upper())
+            if folded:
+                out.append((k, '%s is case-folded before the test' % etext, node.lineno, None, True))
+                continue
+            ra, _ = specialise(fn, etext, low)
+            rb, _ = specialise(fn, etext, low.upper())
+            if _strip_nodes(ra) == _strip_nodes(rb):
+                out.append((k, "%s == %r and == %r leave the same residual program" % (etext, low, low.upper()), node.lineno, None, False))
+            else:
+                line = _first_difference(ra, rb) or node.lineno
+                out.append((k, 'differ', line, (low, low.upper()), False))
+    return out
+
+
+def literal_text_functions(ix):
+    """functions that see the text of an INT token: [(module, qualname, owner, fn, LiteralText)]
+    roots: self.value in the methods of ExprNodes.IntNode; the variable a parser function passes as IntNode(value=...) when it derives from <scanner>.systring;
+    parameters that receive such text in a call (transitively)."""
+    en = ix.mod('ExprNodes')
+    intnode = ix.cls('ExprNodes', 'IntNode')
+    if intnode is None:
+        raise AnalysisError('ExprNodes.IntNode vanished')
+    work = {}       # id(fn) -> [m, qn, owner, fn, roots]
+    for name, fn in intnode.methods.items():
+        if fn.args.args:
+            work[id(fn)] = [en, 'IntNode.' + name, intnode, fn, {fn.args.args[0].arg + '.value'}]
+    pa = ix.mod('Parsing')
+    for qn, owner, fn in ix.functions_of(pa):
+        for n in walk_no_nested(fn):
+            if isinstance(n, ast.Call):
+                r = ix.resolve_expr(pa, n.func)
+                if r and r[0] == 'class' and r[1] is intnode:
+                    for kw in n.keywords:
+                        if kw.arg == 'value' and isinstance(kw.value, ast.Name):
+                            # does the variable derive from <x>.systring ?
+                            for a in walk_no_nested(fn):
+                                if isinstance(a, (ast.Assign, ast.AnnAssign)) and getattr(a, 'value', None) is not None and \
+                                        any(isinstance(t, ast.Name) and t.id == kw.value.id for t in (a.targets if isinstance(a, ast.Assign) else [a.target])) and \
+                                        any(isinstance(x, ast.Attribute) and x.attr == 'systring' for x in ast.walk(a.value)):
+                                    work.setdefault(id(fn), [pa, qn, owner, fn, set()])[4].add(kw.value.id)
+    if not any(w[0] is pa for w in work.values()):
+        raise AnalysisError('Parsing: no function builds ExprNodes.IntNode(value=<text derived from .systring>)')
+    # parameters receiving literal text
+    for _ in range(4):
+        added = False
+        for m, qn, owner, fn, roots in list(work.values()):
+            lt = LiteralText(fn, roots)
+            for n in walk_no_nested(fn):
+                if not isinstance(n, ast.Call):
+                    continue
+                r = ix.resolve_expr(m, n.func)
+                if not (r and r[0] == 'func'):
+                    continue
+                callee = r[2]
+                params = [a.arg for a in callee.args.posonlyargs + callee.args.args]
+                for i, a in enumerate(n.args):
+                    if i < len(params) and isinstance(a, (ast.Name, ast.Attribute)) and lt.is_text(a):
+                        w = work.setdefault(id(callee), [r[1], callee.name, None, callee, set()])
+                        if params[i] not in w[4]:
+                            w[4].add(params[i])
+                            added = True
+        if not added:
+            break
+    return [(m, qn, owner, fn, LiteralText(fn, roots)) for m, qn, owner, fn, roots in sorted(work.values(), key=lambda w: (w[0].rel, w[1]))]
+
+
+_LEXCASE_BAD = ("def spell(value):\n    if value[0] == '0':\n        kind = value[1]\n        if kind in 'xX':\n            return value\n        elif kind == 'o':\n            value = '0' + value[2:]\n"
+                "        elif kind in 'bB':\n            value = str(int(value[2:], 2))\n    return value\n")
+_LEXCASE_GOOD = ("def spell(value):\n    if value[0] != '0':\n        return value\n    kind = value[1]\n    if not (kind != 'o' and kind != 'O'):\n        return '0' + value[2:]\n"
+                 "    if kind == 'b':\n        return str(int(value[2:], 2))\n    elif kind == 'B':\n        return str(int(value[2:], 2))\n    return value if kind in ('x', 'X') else value\n")
+
+
+def rule_LEXCASE(ctx, floor=7):
+    r = Rule('C43-LEXCASE', 'a function that inspects the text of an integer literal treats the two cases of a marker letter the lexer accepts in one class (Any("Oo") ...) alike: '
+                            'partially evaluated for either spelling it leaves the same residual program', floor)
+    classes, prefix = int_literal_classes(ctx)
+    pairs = case_pairs(classes)
+    n_fn = 0
+    for m, qn, owner, fn, lt in literal_text_functions(ctx.index):
+        res = lexcase_findings(fn, lt, pairs)
+        n_fn += bool(res)
+        for k, sample, line, problem, folded in res:
+            key = '%s.%s:%s' % (m.short, qn, k)
+            r.inst(key, sample='%s: %s' % (key, sample), nontrivial=not folded)
+            if problem:
+                low, up = problem
+                r.violate(key, m.rel, line, '%s.%s treats an integer literal differently when the character it inspects (`%s`) is %r than when it is %r, although the lexer accepts '
+                          'both in the class Any(%r) and both spell the same literal: one spelling takes a path written for something else (text copied unconverted into the C file, '
+                          'a ValueError/KeyError inside the compiler, or a different value)' % (m.short, qn, k.split('~')[0], low, up, pairs[low]))
+    if n_fn < 3:
+        raise AnalysisError('only %d functions with character tests on integer-literal text found' % n_fn)
+    bad_fn, good_fn = ast.parse(_LEXCASE_BAD).body[0], ast.parse(_LEXCASE_GOOD).body[0]
+    pb = lexcase_findings(bad_fn, LiteralText(bad_fn, {'value'}), pairs)
+    pg = lexcase_findings(good_fn, LiteralText(good_fn, {'value'}), pairs)
+    r.positive_control([k for k, _, _, p, _ in pb if p] == ['kind~oO'] and len(pg) == 3 and not any(p for _, _, _, p, _ in pg),
+                       "`kind == 'o'` next to `kind in 'xX'` / De Morgan, early-return, duplicated-branch and tuple forms of the correct tests")
+    return r
+
+
+# ------------------------------------------------------------------------------------------------ C43-CPREFIX
+def _keeps_prefix(value, var):
+    """does the expression hand on the first two characters of `var` (not under a slice that cuts them off, not through a converting call)?"""
+    if isinstance(value, ast.Name):
+        return value.id == var
+    if isinstance(value, ast.Subscript):
+        if isinstance(value.value, ast.Name) and value.value.id == var and isinstance(value.slice, ast.Slice):
+            lo = value.slice.lower
+            if lo is None:
+                return True
+            return not (isinstance(lo, ast.Constant) and isinstance(lo.value, int) and lo.value >= 2)
+        return False
+    if isinstance(value, ast.BinOp) and isinstance(value.op, ast.Add):
+        # only the leftmost operand supplies the first characters
+        return _keeps_prefix(value.left, var)
+    if isinstance(value, ast.IfExp):
+        return _keeps_prefix(value.body, var) or _keeps_prefix(value.orelse, var)
+    if isinstance(value, ast.Call) and isinstance(value.func, ast.Attribute) and value.func.attr in _TEXT_KEEPING_METHODS + _CASE_FOLDING_METHODS:
+        return _keeps_prefix(value.func.value, var)
+    return False
+
+
+def unconverted_returns(res, lt):
+    """walk every path of a residual: [(line, variable)] for the returns that are reached after the prefix character was examined and whose value still
+    begins with the unmodified literal text.  Path state: (examined?, the locals that still carry the original first characters)."""
+    bad = []
+
+    def hands_on(e, keeps):
+        """the variable / root through which the expression still starts with the original text, or None"""
+        parts = []
+
+        def flat(x):
+            if isinstance(x, ast.BinOp) and isinstance(x.op, ast.Add):
+                flat(x.left)
+                flat(x.right)
+            else:
+                parts.append(x)
+        flat(e)
+        # a leading sign variable does not change what follows it: every '+'-operand may be the one that supplies the prefix
+        for p in parts:
+            if _u(p) in lt.roots:
+                return _u(p)
+            for v in keeps:
+                if _keeps_prefix(p, v):
+                    return v
+        return None
+
+    def walk(items, states):
+        """states: set of (examined, frozenset(keeps)); -> states that reach the end of the items"""
+        for it in items:
+            if not states:
+                return states
+            k = it[0]
+            if k == 'examined':
+                states = {(True, ks) for _, ks in states}
+            elif k == 's':
+                st = it[2]
+                if isinstance(st, ast.Return):
+                    if st.value is not None:
+                        for ex, ks in states:
+                            c = hands_on(st.value, ks) if ex else None
+                            if c:
+                                bad.append((st.lineno, c))
+                    return set()
+                if isinstance(st, ast.Raise):
+                    return set()
+                if isinstance(st, ast.Assign):
+                    new = set()
+                    for ex, ks in states:
+                        ks2 = set(ks)
+                        for t in st.targets:
+                            if isinstance(t, ast.Name):
+                                ks2.discard(t.id)
+                                if hands_on(st.value, ks) is not None:
+                                    ks2.add(t.id)
+                        new.add((ex, frozenset(ks2)))
+                    states = new
+            elif k == 'if':
+                states = walk(it[2], set(states)) | walk(it[3], set(states))
+            elif k == 'loop':
+                after_head = walk(it[2], set(states)) if it[2] else set(states)
+                states = after_head | walk(it[3], set(after_head))
+                if it[4]:
+                    states = walk(it[4], states)
+            elif k == 'try':
+                out = set()
+                for p in it[2][:-1]:
+                    out |= walk(p, set(states))
+                states = walk(it[2][-1], out) if it[2][-1] else out
+            elif k == 'with':
+                states = walk(it[2], states)
+        return states
+    walk(res, {(False, frozenset())})
+    return sorted(set(bad))
+
+
+def c_spelling_functions(ix):
+    """methods of ExprNodes.IntNode that build the C spelling: reachable from get_constant_c_result_code / calculate_result_code / generate_evaluation_code
+    through self.<method>() calls, returning an expression that contains the literal text"""
+    intnode = ix.cls('ExprNodes', 'IntNode')
+    start = [n for n in ('get_constant_c_result_code', 'generate_evaluation_code', 'calculate_result_code') if ix.find_method(intnode, n)]
+    if not start:
+        raise AnalysisError('IntNode.get_constant_c_result_code vanished')
+    seen, todo = set(), list(start)
+    while todo:
+        nm = todo.pop()
+        if nm in seen:
+            continue
+        seen.add(nm)
+        f = ix.find_method(intnode, nm)
+        if not f or f[0] is not intnode:
+            continue
+        for n in walk_no_nested(f[1]):
+            if isinstance(n, ast.Call) and is_self_attr(n.func) and n.func.attr not in seen:
+                todo.append(n.func.attr)
+    out = []
+    for nm in sorted(seen):
+        fn = intnode.methods.get(nm)
+        if fn is None or not fn.args.args:
+            continue
+        lt = LiteralText(fn, {fn.args.args[0].arg + '.value'})
+        rets = [n for n in walk_no_nested(fn) if isinstance(n, ast.Return) and n.value is not None]
+        if any(lt.is_text(x) for rt in rets for x in ast.walk(rt.value) if isinstance(x, (ast.Name, ast.Attribute))) and \
+                any(isinstance(n, ast.Subscript) and lt.is_text(n) for n in walk_no_nested(fn)):
+            out.append((nm, fn, lt))
+    return intnode, out
+
+
+def prefix_expression(fn, lt):
+    """the expression through which the function looks at the character after the leading '0': a local assigned <text>[1], else the text '<text>[1]' itself"""
+    for n in walk_no_nested(fn):
+        if isinstance(n, ast.Assign) and isinstance(n.value, ast.Subscript) and lt.is_text(n.value) and \
+                ((isinstance(n.value.slice, ast.Constant) and n.value.slice.value == 1) or _one_char_slice(n.value.slice) == 1):
+            for t in n.targets:
+                if isinstance(t, ast.Name):
+                    return t.id
+    for n in walk_no_nested(fn):
+        if isinstance(n, ast.Subscript) and isinstance(n.slice, ast.Constant) and n.slice.value == 1 and lt.is_text(n):
+            return _u(n)
+    return None
+
+
+def cprefix_findings(fn, lt, letters):
+    """-> [(letter, verdict 'ok'|'unexamined'|'verbatim', line, detail)]"""
+    e = prefix_expression(fn, lt)
+    out = []
+    for ch in letters:
+        if e is None:
+            out.append((ch, 'unexamined', fn.lineno, 'the function never looks at the character after the leading 0'))
+            continue
+        res, sp = specialise(fn, e, ch)
+        bad = unconverted_returns(res, lt)
+        if bad:
+            out.append((ch, 'verbatim', bad[0][0], 'returns `%s` still starting with the original text' % bad[0][1]))
+        else:
+            out.append((ch, 'ok', fn.lineno, ''))
+    return out
+
+
+_CPREFIX_BAD = ("def spell(self):\n    value = self.value\n    if len(value) <= 2:\n        return value\n    sign = ''\n    if value[0] == '-':\n        sign = '-'\n        value = value[1:]\n"
+                "    if value[0] == '0':\n        kind = value[1]\n        if sign and kind in 'oOxX' and value[2:].isdigit():\n            value = str(number(value))\n"
+                "        elif kind in 'bB':\n            value = str(int(value[2:], 2))\n    return sign + value\n")
+_CPREFIX_GOOD = _CPREFIX_BAD.replace("        elif kind in 'bB':", "        elif kind in 'oO':\n            value = '0' + value[2:]\n        elif kind in 'bB':")
+
+
+def rule_CPREFIX(ctx, floor=3):
+    r = Rule('C43-CPREFIX', 'the C spelling of an integer literal never starts with a prefix C99 does not have: on every path of the spelling function taken by a '
+                            'Python-only prefix letter (the lexer\'s prefix classes minus x/X) the text is converted before it is returned', floor)
+    classes, prefix = int_literal_classes(ctx)
+    letters = sorted({ch for k in prefix for ch in k} - C99_PREFIX_LETTERS)
+    if not letters:
+        raise AnalysisError('Lexicon: no Python-only integer prefix (0o / 0b) found')
+    intnode, fns = c_spelling_functions(ctx.index)
+    if not fns:
+        raise AnalysisError('IntNode: no method reachable from get_constant_c_result_code returns the literal text')
+    for nm, fn, lt in fns:
+        for ch, verdict, line, detail in cprefix_findings(fn, lt, letters):
+            key = 'ExprNodes.IntNode.%s:prefix 0%s' % (nm, ch)
+            r.inst(key, sample='%s: %s %s' % (key, verdict, detail))
+            if verdict != 'ok':
+                r.violate(key, intnode.module.rel, line, 'IntNode.%s %s for a literal written 0%s...: the lexer accepts the prefix (Lexicon Any(%r)) but C99 has no such '
+                          'integer prefix, so the generated C file is rejected by the C compiler (`invalid suffix "%s..." on integer constant`) although Cython reports success'
+                          % (nm, detail, ch, [k for k in prefix if ch in k][0], ch))
+    bad_fn, good_fn = ast.parse(_CPREFIX_BAD).body[0], ast.parse(_CPREFIX_GOOD).body[0]
+    vb = [(c, v) for c, v, _, _ in cprefix_findings(bad_fn, LiteralText(bad_fn, {'self.value'}), ['o', 'O', 'b', 'B'])]
+    vg = [(c, v) for c, v, _, _ in cprefix_findings(good_fn, LiteralText(good_fn, {'self.value'}), ['o', 'O', 'b', 'B'])]
+    r.positive_control(vb == [('o', 'verbatim'), ('O', 'verbatim'), ('b', 'ok'), ('B', 'ok')] and all(v == 'ok' for _, v in vg),
+                       'spelling function without the 0o branch (positive literals reach the return unconverted) / complete variant')
+    return r
+
+
+# ====================================================================================================== C43-PAIR
+# The counter of C43-COUPLE is a nesting depth: whoever calls the increment method (enter_async) must call the decrement method (exit_async) on the
+# same object before it returns normally, and must not call the decrement without the increment.  A missing exit leaves `async`/`await` reserved for
+# the rest of the file (valid code rejected); an exit without enter trips the assertion / deletes missing keys.
+def pair_findings(fn, up, down):
+    """-> [(receiver text, kind 'unbalanced-enter'|'exit-without-enter', line)] over every normal path (branch correlation by pyflow)"""
+    calls = [n for n in walk_no_nested(fn) if isinstance(n, ast.Call) and isinstance(n.func, ast.Attribute) and n.func.attr in (up, down)]
+    if not calls:
+        return None
+    first = {}
+
+    def tr(node, state):
+        if isinstance(node, (ast.FunctionDef, ast.AsyncFunctionDef, ast.ClassDef)):
+            return state
+        s = set(state)
+        for c in pyflow.calls_in(node):
+            if isinstance(c.func, ast.Attribute) and c.func.attr in (up, down):
+                recv = _u(c.func.value)
+                first.setdefault(recv, c.lineno)
+                depth = [f for f in s if isinstance(f, tuple) and f[:2] == ('DEPTH', recv)]
+                d = depth[0][2] if depth else 0
+                for f in depth:
+                    s.discard(f)
+                d = d + 1 if c.func.attr == up else d - 1
+                if d < 0:
+                    s.add(('UNDER', recv))
+                    d = 0
+                if d:
+                    s.add(('DEPTH', recv, min(d, 3)))
+        return frozenset(s)
+    try:
+        o = pyflow.Flow(tr).run(fn)
+    except pyflow.TooManyStates:
+        return 'too many path states'
+    out = set()
+    for st in o.normal | o.returns:
+        for f in st:
+            if isinstance(f, tuple) and f[0] == 'DEPTH':
+                out.add((f[1], 'unbalanced-enter', first.get(f[1], fn.lineno)))
+            elif isinstance(f, tuple) and f[0] == 'UNDER':
+                out.add((f[1], 'exit-without-enter', first.get(f[1], fn.lineno)))
+    return sorted(out)
+
+
+_PAIR_BAD = ("def p_def(s, decorators, is_async_def):\n    if is_async_def:\n        s.enter_async()\n    s.next()\n    body = p_suite(s)\n    if decorators:\n        s.exit_async()\n    return body\n")
+_PAIR_GOOD = ("def p_def(s, decorators, is_async_def):\n    entered = is_async_def\n    if entered:\n        s.enter_async()\n    s.next()\n    try:\n        body = p_suite(s)\n    finally:\n"
+              "        if entered:\n            s.exit_async()\n    return body\n")
+
+
+def rule_PAIR(ctx, floor=1):
+    r = Rule('C43-PAIR', 'every function that calls the increment method of a counted scanner feature (enter_async) calls the decrement method (exit_async) on every normal path, '
+                         'and never the decrement without the increment', floor)
+    ix = ctx.index
+    m = ix.mod('Scanning')
+    pairs = set()
+    for cname, c in sorted(m.classes.items()):
+        trans = find_transitions(cname, c.methods)
+        ups = sorted({t.name for t in trans if t.delta > 0 and t.added})
+        downs = sorted({t.name for t in trans if t.delta < 0 and t.removed})
+        by = {}
+        for t in trans:
+            by.setdefault((t.counter, t.table), []).append(t)
+        for (counter, table), ts in by.items():
+            u = sorted({t.name for t in ts if t.delta > 0 and t.added})
+            d = sorted({t.name for t in ts if t.delta < 0 and t.removed})
+            if len(u) == 1 and len(d) == 1:
+                pairs.add((cname, u[0], d[0]))
+    if not pairs:
+        raise AnalysisError('no increment/decrement method pair found in Scanning (enter_async/exit_async moved?)')
+    n = 0
+    for cname, up, down in sorted(pairs):
+        for mm in sorted(ix.modules.values(), key=lambda x: x.rel):
+            if not mm.rel.startswith('Cython/Compiler/'):
+                continue
+            for qn, owner, fn in ix.functions_of(mm):
+                if owner is not None and owner.name == cname:
+                    continue          # the class that owns the counter establishes its own initial level (C43-COUPLE checks its writes)
+                res = pair_findings(fn, up, down)
+                if res is None:
+                    continue
+                key = '%s.%s:%s/%s' % (mm.short, qn, up, down)
+                if isinstance(res, str):
+                    r.info('%s: %s' % (key, res))
+                    continue
+                n += 1
+                r.inst(key, sample='%s: %s' % (key, 'balanced on every normal path' if not res else res))
+                for recv, kind, line in res:
+                    if kind == 'unbalanced-enter':
+                        r.violate('%s:%s' % (key, kind), mm.rel, line, '%s.%s calls %s.%s() but on some normal path returns without %s.%s(): the counted feature of %s stays switched on '
+                                  '(its keywords remain reserved for the rest of the file, valid code using them as names is rejected)' % (mm.short, qn, recv, up, recv, down, cname))
+                    else:
+                        r.violate('%s:%s' % (key, kind), mm.rel, line, '%s.%s calls %s.%s() on a path on which it did not call %s.%s(): the counter goes below the level the caller established '
+                                  '(AssertionError / KeyError inside the parser, or the enclosing construct loses its keywords)' % (mm.short, qn, recv, down, recv, up))
+    if not n:
+        raise AnalysisError('no caller of %s found in the compiler' % ', '.join('%s/%s' % (u, d) for _, u, d in sorted(pairs)))
+    bad = pair_findings(ast.parse(_PAIR_BAD).body[0], 'enter_async', 'exit_async')
+    good = pair_findings(ast.parse(_PAIR_GOOD).body[0], 'enter_async', 'exit_async')
+    r.positive_control({k for _, k, _ in bad} == {'unbalanced-enter', 'exit-without-enter'} and good == [],
+                       'exit guarded by a different flag than enter / flag copied to a local, exit in a finally block')
+    return r
+
+
+# ====================================================================================================== C43-HOLD
+# Errors.hold_errors() pushes a list on the thread-local error stack, release_errors() pops it.  While a list is on the stack every error of the
+# compilation is appended to it instead of being printed and counted.  A push must therefore be undone on *every* exit of the function that made it,
+# exceptional exits included: the statement after the push is a try whose finally block pops unconditionally.
+def stack_functions(ix):
+    er = ix.mod('Errors')
+    push, pop = set(), set()
+    for name, fn in er.functions.items():
+        for n in walk_no_nested(fn):
+            if isinstance(n, ast.Call) and isinstance(n.func, ast.Attribute) and isinstance(n.func.value, ast.Attribute) and n.func.value.attr.endswith('errors_stack'):
+                if n.func.attr == 'append':
+                    push.add(name)
+                elif n.func.attr == 'pop':
+                    pop.add(name)
+    if not push or not pop:
+        raise AnalysisError('Errors: no function pushes on / pops from the error stack (hold_errors / release_errors moved?)')
+    return er, push, pop
+
+
+def hold_findings(ix, m, fn, push, pop):
+    """-> [(line, problem or None)] one per push call of the function"""
+    def is_call_to(n, names):
+        if not isinstance(n, ast.Call):
+            return False
+        nm = n.func.attr if isinstance(n.func, ast.Attribute) else n.func.id if isinstance(n.func, ast.Name) else None
+        if nm not in names:
+            return False
+        r = ix.resolve_expr(m, n.func) if m is not None else None
+        if r and r[0] == 'func' and r[1].short == 'Errors':
+            return r[2].name in names
+        return m is None and isinstance(n.func, ast.Name) and n.func.id in names
+    out = []
+
+    def visit(stmts):
+        for i, st in enumerate(stmts):
+            has_push = not isinstance(st, (ast.FunctionDef, ast.AsyncFunctionDef, ast.ClassDef)) and isinstance(st, (ast.Assign, ast.Expr, ast.AnnAssign)) and \
+                any(is_call_to(n, push) for n in ast.walk(st))
+            if has_push:
+                nxt = stmts[i + 1] if i + 1 < len(stmts) else None
+                if not isinstance(nxt, ast.Try) or not nxt.finalbody:
+                    out.append((st.lineno, 'is not followed by a try/finally: an exception between the push and the pop leaves the list on the error stack'))
+                elif not any(isinstance(s2, ast.Expr) and is_call_to(s2.value, pop) for s2 in nxt.finalbody):
+                    out.append((st.lineno, 'is followed by a try whose finally block does not pop unconditionally (the pop is elsewhere or under a condition)'))
+                else:
+                    out.append((st.lineno, None))
+            for fld in ('body', 'orelse', 'finalbody'):
+                sub = getattr(st, fld, None)
+                if isinstance(sub, list) and not isinstance(st, (ast.FunctionDef, ast.AsyncFunctionDef, ast.ClassDef)):
+                    visit(sub)
+            for h in getattr(st, 'handlers', []) or []:
+                visit(h.body)
+    visit(fn.body)
+    return out
+
+
+_HOLD_BAD = "def tentative(s):\n    errors = hold_errors()\n    try:\n        yield errors\n    except CompileError:\n        pass\n    release_errors(ignore=True)\n"
+_HOLD_GOOD = "def tentative(s):\n    errors = hold_errors()\n    try:\n        try:\n            yield errors\n        except CompileError:\n            pass\n    finally:\n        release_errors(ignore=True)\n"
+
+
+def rule_HOLD(ctx, floor=1):
+    r = Rule('C43-HOLD', 'a list pushed on the error stack (Errors.hold_errors) is popped in a finally block that directly follows the push: no exit of the function, '
+                         'exceptional ones included, leaves later errors swallowed', floor)
+    ix = ctx.index
+    er, push, pop = stack_functions(ix)
+    for m in sorted(ix.modules.values(), key=lambda x: x.rel):
+        if not (m.rel.startswith('Cython/Compiler/') or m.rel.startswith('Cython/Build/') or m.rel.count('/') == 1):
+            continue
+        for qn, owner, fn in ix.functions_of(m):
+            if m is er and fn.name in push | pop:
+                continue
+            res = hold_findings(ix, m, fn, push, pop)
+            seen = 0
+            for line, problem in res:
+                seen += 1
+                key = '%s.%s:%s' % (m.short, qn, '/'.join(sorted(push))) + ('' if seen == 1 else '#%d' % seen)
+                r.inst(key, sample='%s: %s' % (key, problem or 'popped in the finally block that follows'))
+                if problem:
+                    r.violate(key, m.rel, line, '%s.%s pushes a held-error list (%s) which %s: from then on every error is appended to a list nobody reads - '
+                              'the compiler reports success (or fails later) without a positioned message' % (m.short, qn, '/'.join(sorted(push)), problem))
+    bad = hold_findings(ix, None, ast.parse(_HOLD_BAD).body[0], {'hold_errors'}, {'release_errors'})
+    good = hold_findings(ix, None, ast.parse(_HOLD_GOOD).body[0], {'hold_errors'}, {'release_errors'})
+    r.positive_control(len(bad) == 1 and bad[0][1] and len(good) == 1 and not good[0][1], 'release after the try instead of in a finally block / nested try form')
+    return r
+
+
+# ====================================================================================================== C43-LEXSUFFIX / C43-OCTDIGIT
+# "token language within the converter's domain" for the numeric tokens: the lexer admits trailing marker letters (INT: [Uu][Ll][Ll], IMAG: [jJ]) and Py2-style
+# decimal text with a leading zero; the converters (int(text, 0) / int(text, 8) / float(text)) do not.  The parser function that turns the token into a node
+# must strip every suffix letter and reject every digit the converter's base does not have -- otherwise ValueError inside the compiler.
+def _lexicon_env(ctx):
+    tree = ctx.parse('Cython/Compiler/Lexicon.py')
+    mk = tables.find_function(tree, 'make_lexicon')
+    if mk is None:
+        raise AnalysisError('Lexicon.make_lexicon vanished')
+    mod_strs = {}
+    for st in tree.body:
+        if isinstance(st, ast.Assign) and len(st.targets) == 1 and isinstance(st.targets[0], ast.Name):
+            v = _fold_str(st.value, mod_strs)
+            if v is not None:
+                mod_strs[st.targets[0].id] = v
+    env = {}
+    for st in mk.body:
+        if isinstance(st, ast.Assign) and len(st.targets) == 1 and isinstance(st.targets[0], ast.Name):
+            env[st.targets[0].id] = st.value
+    roots = {}
+    for n in ast.walk(mk):
+        if isinstance(n, ast.Tuple) and len(n.elts) == 2 and isinstance(n.elts[1], ast.Call):
+            for k in n.elts[1].keywords:
+                if k.arg == 'symbol' and isinstance(k.value, ast.Constant):
+                    roots[k.value.value] = n.elts[0]
+    return env, mod_strs, roots
+
+
+def _suffix_shape(e, env, mod_strs, depth=0):
+    """(letters, min count, max count) if the pattern consists of letter classes only (Any / Opt / + / |), else None"""
+    if depth > 8:
+        return None
+    if isinstance(e, ast.Name) and e.id in env:
+        return _suffix_shape(env[e.id], env, mod_strs, depth + 1)
+    if isinstance(e, ast.Call) and isinstance(e.func, ast.Name):
+        if e.func.id == 'Any' and len(e.args) == 1:
+            s = _fold_str(e.args[0], mod_strs)
+            if s and all(ch.isalpha() for ch in s):
+                return set(s), 1, 1
+            return None
+        if e.func.id == 'Opt' and len(e.args) == 1:
+            r = _suffix_shape(e.args[0], env, mod_strs, depth + 1)
+            return (r[0], 0, r[2]) if r else None
+        return None
+    if isinstance(e, ast.BinOp) and isinstance(e.op, (ast.Add, ast.BitOr)):
+        a, b = _suffix_shape(e.left, env, mod_strs, depth + 1), _suffix_shape(e.right, env, mod_strs, depth + 1)
+        if a is None or b is None:
+            return None
+        if isinstance(e.op, ast.Add):
+            return a[0] | b[0], a[1] + b[1], a[2] + b[2]
+        return a[0] | b[0], min(a[1], b[1]), max(a[2], b[2])
+    return None
+
+
+def token_suffix(ctx, symbol):
+    """the trailing letter-only part of the pattern of a token: (letters, min, max); (set(), 0, 0) if the pattern has none"""
+    env, mod_strs, roots = _lexicon_env(ctx)
+    if symbol not in roots:
+        raise AnalysisError("Lexicon: no token-table row with symbol=%r" % symbol)
+    e = roots[symbol]
+    for _ in range(8):
+        if isinstance(e, ast.Name) and e.id in env:
+            e = env[e.id]
+        else:
+            break
+    letters, lo, hi = set(), 0, 0
+    while isinstance(e, ast.BinOp) and isinstance(e.op, ast.Add):
+        r = _suffix_shape(e.right, env, mod_strs)
+        if r is None:
+            break
+        letters |= r[0]
+        lo += r[1]
+        hi += r[2]
+        e = e.left
+    return letters, lo, hi
+
+
+def stripped_letters(fn, var):
+    """letters removed from the end of the string variable: while var[-1] in S: ... var = var[:-1]   |   var = var.rstrip(S)   -> (set, recognised?)"""
+    out, seen = set(), False
+    for n in walk_no_nested(fn):
+        if isinstance(n, ast.While) and isinstance(n.test, ast.Compare) and len(n.test.ops) == 1 and isinstance(n.test.ops[0], ast.In):
+            a, b = n.test.left, n.test.comparators[0]
+            letters = _const_letters(b)
+            if letters is not None and isinstance(a, ast.Subscript) and _u(a.value) == var and _u(a.slice) == '-1':
+                cuts = any(isinstance(x, ast.Assign) and any(_u(t) == var for t in x.targets) and isinstance(x.value, ast.Subscript) and _u(x.value.value) == var
+                           and isinstance(x.value.slice, ast.Slice) and x.value.slice.lower is None and x.value.slice.upper is not None and _u(x.value.slice.upper) == '-1'
+                           for x in ast.walk(n))
+                if cuts:
+                    out |= set(letters)
+                    seen = True
+        elif isinstance(n, ast.Assign) and any(_u(t) == var for t in n.targets) and isinstance(n.value, ast.Call) and isinstance(n.value.func, ast.Attribute) \
+                and n.value.func.attr in ('rstrip', 'strip') and _u(n.value.func.value) == var and len(n.value.args) == 1:
+            letters = _const_letters(n.value.args[0])
+            if letters is not None:
+                out |= set(letters)
+                seen = True
+    return out, seen
+
+
+def _block_of(fn, target):
+    """the statement list that contains the statement holding `target`, and the index of that statement"""
+    def rec(stmts):
+        for i, st in enumerate(stmts):
+            if isinstance(st, (ast.FunctionDef, ast.AsyncFunctionDef, ast.ClassDef)):
+                continue
+            subs = [getattr(st, f) for f in ('body', 'orelse', 'finalbody') if isinstance(getattr(st, f, None), list)] + [h.body for h in getattr(st, 'handlers', []) or []]
+            if subs:
+                for sub in subs:
+                    r = rec(sub)
+                    if r:
+                        return r
+                # the target may sit in the header (test / iter)
+                hdr = [getattr(st, f) for f in ('test', 'iter') if getattr(st, f, None) is not None]
+                if any(target is x for h in hdr for x in ast.walk(h)):
+                    return stmts, i
+            elif any(x is target for x in ast.walk(st)):
+                return stmts, i
+        return None
+    return rec(fn.body)
+
+
+def suffix_findings(ctx):
+    """-> [(key, sample, rel, line, problem or None, info?)]"""
+    ix = ctx.index
+    pa = ix.mod('Parsing')
+    out = []
+    # INT: the variable handed to IntNode(value=...)
+    letters, lo, hi = token_suffix(ctx, 'INT')
+    if not letters:
+        raise AnalysisError('Lexicon: the INT pattern has no letter suffix (intsuffix vanished?)')
+    n_int = 0
+    for m, qn, owner, fn, lt in literal_text_functions(ix):
+        if m is not pa:
+            continue
+        for var in sorted(lt.roots):
+            n_int += 1
+            got, seen = stripped_letters(fn, var)
+            key = 'Parsing.%s:INT suffix' % qn
+            missing = sorted(letters - got)
+            if not seen:
+                out.append((key, 'no strip loop recognised', m.rel, fn.lineno, 'never strips the suffix letters %s the lexer accepts at the end of an INT token' % sorted(letters), False))
+            elif missing:
+                out.append((key, 'strips %s' % sorted(got), m.rel, fn.lineno, 'strips %s from the end of the INT token but the lexer also accepts %s there' % (sorted(got), missing), False))
+            else:
+                out.append((key, 'strips %s, lexer suffix letters %s' % (sorted(got), sorted(letters)), m.rel, fn.lineno, None, False))
+    if not n_int:
+        raise AnalysisError('no parser function hands INT token text to IntNode')
+    # IMAG: the expression handed to ImagNode(value=...)
+    letters, lo, hi = token_suffix(ctx, 'IMAG')
+    imag = ix.cls('ExprNodes', 'ImagNode')
+    if imag is None or not letters:
+        raise AnalysisError('ExprNodes.ImagNode / the IMAG suffix class vanished')
+    n_imag = 0
+    seen_keys = {}
+    for qn, owner, fn in ix.functions_of(pa):
+        for n in sorted((x for x in walk_no_nested(fn) if isinstance(x, ast.Call)), key=lambda x: (x.lineno, x.col_offset)):
+            if not isinstance(n, ast.Call):
+                continue
+            r = ix.resolve_expr(pa, n.func)
+            if not (r and r[0] == 'class' and r[1] is imag):
+                continue
+            val = [k.value for k in n.keywords if k.arg == 'value']
+            if not val:
+                continue
+            n_imag += 1
+            seen_keys['Parsing.%s:IMAG suffix' % qn] = seen_keys.get('Parsing.%s:IMAG suffix' % qn, 0) + 1
+            key = 'Parsing.%s:IMAG suffix' % qn + ('' if seen_keys['Parsing.%s:IMAG suffix' % qn] == 1 else '#%d' % seen_keys['Parsing.%s:IMAG suffix' % qn])
+            parts = []
+
+            def flat(x):
+                if isinstance(x, ast.BinOp) and isinstance(x.op, ast.Add):
+                    flat(x.left)
+                    flat(x.right)
+                else:
+                    parts.append(x)
+            flat(val[0])
+            traced = []
+            untraced = False
+            for e in parts:
+                got, seen = set(), False
+                if isinstance(e, ast.Name):
+                    blk = _block_of(fn, n)
+                    src = None
+                    if blk:
+                        stmts, i = blk
+                        for st in reversed(stmts[:i]):
+                            if isinstance(st, ast.Assign) and any(_u(t) == e.id for t in st.targets):
+                                src = st.value
+                                break
+                    if src is None:
+                        untraced = True
+                        continue
+                    got, seen = stripped_letters(fn, e.id)
+                    e = src
+                while isinstance(e, ast.Call) and isinstance(e.func, ast.Attribute) and e.func.attr == 'cast' and len(e.args) == 2:
+                    e = e.args[1]
+                if any(isinstance(x, ast.Attribute) and x.attr == 'systring' for x in ast.walk(e)):
+                    traced.append((e, got, seen))
+            if not traced:
+                if untraced:
+                    out.append((key, 'value not traced', pa.rel, n.lineno, 'the value handed to ImagNode is not assigned in the same block', True))
+                else:
+                    out.append((key, 'not token text: %s' % _u(val[0]), pa.rel, n.lineno, None, False))
+                continue
+            for e, got, seen in traced:
+                cut = 0
+                if isinstance(e, ast.Subscript) and isinstance(e.slice, ast.Slice) and e.slice.lower is None and isinstance(e.slice.upper, ast.UnaryOp) \
+                        and isinstance(e.slice.upper.op, ast.USub) and isinstance(e.slice.upper.operand, ast.Constant):
+                    cut = e.slice.upper.operand.value
+                elif isinstance(e, ast.Call) and isinstance(e.func, ast.Attribute) and e.func.attr == 'rstrip' and len(e.args) == 1 and _const_letters(e.args[0]) is not None:
+                    got = got | set(_const_letters(e.args[0]))
+                    seen = True
+                elif not isinstance(e, ast.Attribute):
+                    out.append((key, 'form not modelled: %s' % _u(e), pa.rel, n.lineno, 'the text handed to ImagNode is computed by `%s`' % _u(e), True))
+                    continue
+                if lo == hi and cut == lo:
+                    out.append((key, 'cuts %d character(s), lexer suffix %s x%d' % (cut, sorted(letters), lo), pa.rel, n.lineno, None, False))
+                elif seen and letters <= got:
+                    out.append((key, 'strips %s' % sorted(got), pa.rel, n.lineno, None, False))
+                else:
+                    out.append((key, 'cuts %d, strips %s' % (cut, sorted(got)), pa.rel, n.lineno,
+                                'hands `%s` to ImagNode: the lexer puts %d suffix letter(s) from %s at the end of an IMAG token, %d are cut off' % (_u(e), lo, sorted(letters), cut), False))
+    if not n_imag:
+        raise AnalysisError('no parser function builds ExprNodes.ImagNode(value=...)')
+    return out
+
+
+def rule_LEXSUFFIX(ctx, floor=4):
+    r = Rule('C43-LEXSUFFIX', 'the parser strips every suffix letter the lexer accepts at the end of an INT / IMAG token before the text reaches the node whose converter '
+                              '(int(text, base) / float(text)) rejects it', floor)
+    for key, sample, rel, line, problem, info in suffix_findings(ctx):
+        if info:
+            r.info('%s: %s' % (key, problem))
+            continue
+        r.inst(key, sample='%s: %s' % (key, sample))
+        if problem:
+            r.violate(key, rel, line, '%s %s: the letter stays in the node value and the conversion of the literal raises ValueError inside the compiler' % (key.split(':')[0], problem))
+    # positive control on the extraction helpers
+    fn = ast.parse('def p(s):\n    value = s.systring\n    while value[-1] in "Ll":\n        value = value[:-1]\n    return value\n').body[0]
+    got, seen = stripped_letters(fn, 'value')
+    r.positive_control(seen and got == {'L', 'l'} and token_suffix(ctx, 'INT')[0] - got, 'strip loop that forgets the unsigned suffix')
+    return r
+
+
+def octal_guard_findings(ctx):
+    """-> (bad digits, [(digit, ok?, guard text)], recognised?, fn)"""
+    ix = ctx.index
+    classes, _ = int_literal_classes(ctx)
+    digits = set()
+    for k in classes:
+        if k and all(ch.isdigit() for ch in k):
+            digits |= set(k)
+    ut = ix.mod('Utils')
+    conv = ut.functions.get('str_to_number')
+    if conv is None:
+        raise AnalysisError('Utils.str_to_number vanished')
+    params = [a.arg for a in conv.args.args]
+    base = None
+    for n in walk_no_nested(conv):
+        if isinstance(n, ast.Call) and isinstance(n.func, ast.Name) and n.func.id == 'int' and len(n.args) == 2 and isinstance(n.args[1], ast.Constant) \
+                and isinstance(n.args[0], ast.Name) and n.args[0].id in params and isinstance(n.args[1].value, int) and 2 <= n.args[1].value < 10:
+            base = n.args[1].value          # the whole text converted in a base below ten: the Py2-style leading-zero branch
+    if base is None:
+        return set(), [], True, None
+    bad = sorted(digits - {str(i) for i in range(base)})
+    pa = ix.mod('Parsing')
+    res, recognised, where = [], False, None
+    for m, qn, owner, fn, lt in literal_text_functions(ix):
+        if m is not pa:
+            continue
+        where = fn
+        guards = []
+        for n in walk_no_nested(fn):
+            if isinstance(n, ast.If) and any(isinstance(c, ast.Call) and ((isinstance(c.func, ast.Name) and c.func.id == 'error') or (isinstance(c.func, ast.Attribute) and c.func.attr == 'error'))
+                                             for st in n.body for c in ast.walk(st)):
+                atoms = [x for x in ast.walk(n.test) if isinstance(x, ast.Compare) and len(x.ops) == 1 and isinstance(x.ops[0], (ast.In, ast.NotIn))
+                         and isinstance(x.left, ast.Constant) and isinstance(x.left.value, str) and len(x.left.value) == 1 and x.left.value.isdigit()
+                         and lt.is_text(x.comparators[0])]
+                if atoms:
+                    guards.append(n.test)
+        recognised = recognised or bool(guards)
+        for d in bad:
+            def truth(e):
+                if isinstance(e, ast.Compare) and len(e.ops) == 1 and isinstance(e.ops[0], (ast.In, ast.NotIn)) and isinstance(e.left, ast.Constant) \
+                        and isinstance(e.left.value, str) and e.left.value in bad and lt.is_text(e.comparators[0]):
+                    v = e.left.value == d
+                    return v if isinstance(e.ops[0], ast.In) else not v
+                if isinstance(e, ast.UnaryOp) and isinstance(e.op, ast.Not):
+                    t = truth(e.operand)
+                    return None if t is None else not t
+                if isinstance(e, ast.BoolOp):
+                    is_and = isinstance(e.op, ast.And)
+                    unknown = False
+                    for v in e.values:
+                        t = truth(v)
+                        if t is None:
+                            unknown = True
+                        elif t != is_and:
+                            return t
+                    return None if unknown else is_and
+                return None
+            ok = [g for g in guards if truth(g) is not False]
+            res.append((d, bool(ok), _u((ok or guards or [ast.Constant(value=None)])[0])))
+    return set(bad), res, recognised, where
+
+
+def rule_OCTDIGIT(ctx, floor=2):
+    r = Rule('C43-OCTDIGIT', 'every digit the lexer accepts in a leading-zero decimal literal but the base of the converter (int(text, 8)) does not have is rejected by an '
+                             'error guard of the parser: the guard is evaluated for a literal containing exactly that digit', floor)
+    bad, res, recognised, fn = octal_guard_findings(ctx)
+    if fn is None and not bad:
+        r.inst('Utils.str_to_number:no-small-base', sample='str_to_number converts no whole literal in a base below ten')
+        r.inst('Utils.str_to_number:no-small-base#2', nontrivial=False)
+        return r
+    if not recognised:
+        r.info('Parsing: no error guard with `<digit> in <text>` tests found; the digit guard is not decided here (LEX1 still checks that a guard exists)')
+        for d in sorted(bad):
+            r.inst('Parsing:digit %s' % d, nontrivial=False)
+        return r
+    for d, ok, guard in res:
+        key = 'Parsing.%s:digit %s' % (fn.name, d)
+        r.inst(key, sample='%s: guard `%s` %s' % (key, guard, 'can fire' if ok else 'is false'))
+        if not ok:
+            r.violate(key, 'Cython/Compiler/Parsing.py', fn.lineno, 'Parsing.%s: for a leading-zero literal that contains the digit %s (and no other non-octal digit) the error guard `%s` is false: '
+                      'the literal reaches Utils.str_to_number, int(text, 8) raises ValueError inside the compiler (e.g. `x = 0%s`)' % (fn.name, d, guard, d))
     return r
